@@ -7,7 +7,7 @@ from . import conn, families, mc
 
 def run(v):
     mc.run_for(v, 'C20')
-    scns, res = conn.check(v, 'C20', families.FAMILIES['C20'], extra_clause_props=('C01', 'C06', 'C07', 'C09'))
+    scns, res = conn.check(v, 'C20', families.FAMILIES['C20'], extra_clause_props=('C01', 'C06', 'C07', 'C09', 'C11'))
     v.coverage['versions'] = sorted(set(s['opts'].get('adapters') for s in scns))
     kinds = {}
     for s in scns:
